@@ -10,6 +10,8 @@ from mc.core import Fail, Outcome, Sub, run_subs
 PROPERTY = "C12"
 ASSUMPTIONS = [
     "alphabet: elements {C,O} (plus the wildcard '*' in the pruning family), bond orders {1,2}; disconnected graphs included; node ids of the two graphs are disjoint so that a wrong direction is visible",
+    "label renderings: one selected node label (element); two selected labels (element, charge) with atoms equal in the first and different in the second; bond orders as numbers, as (before, after) tuples and as names "
+    "(Graph/Matcher only: the MTG matcher documents scalar orders)",
     "oracle: every common induced subgraph mapping by brute force (all k-subsets of the smaller graph x all injections), maximum size from it",
     "without automorphism pruning the result set must equal the oracle's set; with pruning it must be a valid subset containing at least one maximum mapping",
 ]
@@ -21,6 +23,17 @@ RULE = {
 
 VATTR = [{"element": "C"}, {"element": "O"}, {"element": "*"}]
 EATTR = [{"order": 1.0}, {"order": 2.0}]
+# other renderings of the same label alphabets: which attributes are "the selected node labels" and what a bond order looks like
+SCHEMES = {
+    "plain": (VATTR, EATTR, ["element"]),
+    "wc": (VATTR, EATTR, ["element"]),
+    # two selected node labels; atoms that agree in the first and differ in the second
+    "charge": ([{"element": "O", "charge": 0}, {"element": "O", "charge": -1}, {"element": "C", "charge": 0}], EATTR, ["element", "charge"]),
+    # ITS-style (before, after) bond orders and bond-type names: orders that are not numbers
+    "tuple": (VATTR, [{"order": (1.0, 2.0)}, {"order": (2.0, 1.0)}], ["element"]),
+    "string": (VATTR, [{"order": "SINGLE"}, {"order": "DOUBLE"}], ["element"]),
+}
+NODE_ATTRS = [["element"]]
 
 
 def gen(tier, seed):
@@ -42,6 +55,24 @@ def gen(tier, seed):
                 yield [eg.code_str(a), eg.code_str(b), "plain"]
 
 
+def gen_schemes(tier, seed):
+    """the other label renderings: 3 node labels x 1 bond label under 'charge'; 2 x 2 under 'tuple' / 'string'"""
+    reps = [c for n in (2, 3) for c in eg.representatives(n, 3, 1)]
+    lab = [c for n in (1, 2, 3) for c in eg.all_labelled(n, 3, 1)]
+    for a in reps:
+        for b in lab:
+            yield [eg.code_str(a), eg.code_str(b), "charge"]
+            if len(a[0]) != len(b[0]):
+                yield [eg.code_str(b), eg.code_str(a), "charge"]
+    reps = [c for n in (2, 3) for c in eg.representatives(n, 2, 2) if eg.n_edges(c) >= 1]
+    lab = [c for n in (2, 3) for c in eg.all_labelled(n, 2, 2) if eg.n_edges(c) >= 1]
+    for i, a in enumerate(reps):
+        for b in lab:
+            yield [eg.code_str(a), eg.code_str(b), "tuple" if (i % 2 == 0 or tier != "quick") else "string"]
+            if tier != "quick":
+                yield [eg.code_str(a), eg.code_str(b), "string"]
+
+
 def gen_wc(tier, seed):
     reps = [c for n in (1, 2, 3) for c in eg.representatives(n, 3, 1)]
     lab = [c for n in (1, 2, 3) for c in eg.all_labelled(n, 3, 1)]
@@ -54,7 +85,7 @@ def gen_wc(tier, seed):
 
 
 def node_ok(p, h):
-    return p["element"] == h["element"]
+    return all(p[a] == h[a] for a in NODE_ATTRS[0])
 
 
 def edge_ok(p, h):
@@ -98,8 +129,10 @@ def check(case):
 
     sa, sb, kind = case
     ca, cb = eg.parse_code(sa), eg.parse_code(sb)
-    G1 = eg.to_nx(ca, VATTR, EATTR, node_ids=list(range(1, len(ca[0]) + 1)))
-    G2 = eg.to_nx(cb, VATTR, EATTR, node_ids=list(range(11, len(cb[0]) + 11)))
+    vattr, eattr, nattrs = SCHEMES[kind]
+    NODE_ATTRS[0] = nattrs
+    G1 = eg.to_nx(ca, vattr, eattr, node_ids=list(range(1, len(ca[0]) + 1)))
+    G2 = eg.to_nx(cb, vattr, eattr, node_ids=list(range(11, len(cb[0]) + 11)))
     wc = kind == "wc"
     P1, P2 = (prune(G1), prune(G2)) if wc else (G1, G2)
     fails = []
@@ -113,7 +146,7 @@ def check(case):
     maxm = {m for m in allm if len(m) == K}
     for mcs in (True, False):
         for pa in (False, True):
-            mt = M1(node_attrs=["element"], edge_attrs=["order"], prune_wc=wc, prune_automorphisms=pa)
+            mt = M1(node_attrs=list(nattrs), edge_attrs=["order"], prune_wc=wc, prune_automorphisms=pa)
             mt.find_common_subgraph(G1, G2, mcs=mcs)
             ncalls += 1
             f = mt.get_mappings("G1_to_G2")
@@ -144,7 +177,7 @@ def check(case):
             if mt._last_size != (K if (mcs or f) else 0) and mcs:
                 fails.append(Fail("last_size", f"{key}: {mt._last_size}", str(K), key_extra=key))
     # one matcher object reused for another pair first, and the same graph object on both sides
-    mt = M1(node_attrs=["element"], edge_attrs=["order"], prune_wc=wc)
+    mt = M1(node_attrs=list(nattrs), edge_attrs=["order"], prune_wc=wc)
     mt.find_common_subgraph(G2, G2, mcs=True)
     same = mt.get_mappings("G1_to_G2")
     ncalls += 1
@@ -157,7 +190,7 @@ def check(case):
         fails.append(Fail("matcher_reuse", f"M1 reused after another pair: {sorted(reused)}", f"{sorted(maxm)}"))
     # find_rc_mapping on graphs given directly (side='its'): component-wise pairing and whole-graph search, on a reused instance
     if not wc:
-        mt = M1(node_attrs=["element"], edge_attrs=["order"])
+        mt = M1(node_attrs=list(nattrs), edge_attrs=["order"])
         mt.find_common_subgraph(G2, G1, mcs=True)
         mt.get_mappings("G1_to_G2"), mt.get_mappings("G2_to_G1")  # fill whatever the instance may keep
         for comp in (True, False):
@@ -175,18 +208,18 @@ def check(case):
                 elif not comp and mcs and {tuple(sorted(m.items())) for m in f} != maxm:
                     fails.append(Fail("maximum_set", f"{key}: {sorted(tuple(sorted(m.items())) for m in f)}", f"{sorted(maxm)}", key_extra=key))
     # molecule-level mode: whole components
-    mt = M1(node_attrs=["element"], edge_attrs=["order"], prune_wc=wc)
+    mt = M1(node_attrs=list(nattrs), edge_attrs=["order"], prune_wc=wc)
     mt.find_common_subgraph(G1, G2, mcs_mol=True)
     ncalls += 1
     for m in mt.get_mappings("G1_to_G2"):
         if not valid(m, P1, P2):
             fails.append(Fail("invalid_mapping_mol", f"M1 mcs_mol: {m}", "valid mapping G1->G2"))
-    if not wc:
+    if kind in ("plain", "charge"):  # the MTG matcher documents scalar bond orders only
         # MTG variant: G1 is the pattern, G2 the host, mappings G1 -> G2
         allm2 = all_common(G1, G2)
         K2 = max((len(m) for m in allm2), default=0)
         for mcs in (True, False):
-            m2 = M2(node_label_names=["element"], edge_attribute="order")
+            m2 = M2(node_label_names=list(nattrs), edge_attribute="order")
             m2.find_common_subgraph(G1, G2, mcs=mcs)
             ncalls += 1
             res = m2.get_mappings()
@@ -201,7 +234,7 @@ def check(case):
                 fails.append(Fail("common_set", f"{key}: {len(rset)}", f"{len(allm2)}", key_extra=key))
             elif mcs and m2.last_size != K2:
                 fails.append(Fail("last_size", f"{key}: {m2.last_size}", str(K2), key_extra=key))
-        m2 = M2(node_label_names=["element"], edge_attribute="order")
+        m2 = M2(node_label_names=list(nattrs), edge_attribute="order")
         m2.find_common_subgraph(G1, G2, mcs_mol=True)
         ncalls += 1
         for m in m2.get_mappings():
@@ -214,6 +247,8 @@ def subchecks(tier, seed):
     return [
         Sub("pairs", gen, check, key=lambda c: f"{c[0]}~{c[1]}", rule=RULE[tier]),
         Sub("wildcard_pairs", gen_wc, check, key=lambda c: f"{c[0]}~{c[1]}", rule=RULE[tier]),
+        Sub("label_schemes", gen_schemes, check, key=lambda c: f"{c[2]}:{c[0]}~{c[1]}", rule="the same enumeration with two selected node labels (element, charge: 3 label values, atoms equal in element and different in charge) "
+            "and with bond orders that are not numbers ((before, after) tuples, bond-type names)"),
     ]
 
 
